@@ -70,6 +70,7 @@ static void flush_log(const char *status) {
     fclose(o);
 }
 static volatile long records = 0;    /* number of callback records so far (stall detection) */
+#define WATCHDOG 150                 /* seconds without any callback or phase change before a rank gives up */
 
 /* ---------------- deterministic bytes ---------------- */
 static uint64_t sm64(uint64_t *s) { uint64_t z = (*s += 0x9E3779B97F4A7C15ULL); z = (z ^ (z >> 30)) * 0xBF58476D1CE4E5B9ULL; z = (z ^ (z >> 27)) * 0x94D049BB133111EBULL; return z ^ (z >> 31); }
@@ -254,14 +255,14 @@ static int am_cb(parsec_comm_engine_t *e, parsec_ce_tag_t tag, void *msg, size_t
     int ok = (msg_size >= HDR) && h[0] == src && h[1] == (int)tag && h[3] == (int)msg_size && h[5] == me
              && same((unsigned char *)msg + HDR, msg_size - HDR, ((uint64_t)h[0] << 48) ^ ((uint64_t)h[1] << 40) ^ ((uint64_t)(uint32_t)h[4] << 8) ^ (uint64_t)me);
     L("am %d %d %d %ld %d %ld %d\n", (int)tag, src, h[4], (long)msg_size, ok, pseq, h[2]);
-    got_am++; records++;
+    got_am++; records++; alarm(WATCHDOG);
     L("e\n");
     return 1;
 }
 static int put_l_cb(parsec_comm_engine_t *e, parsec_ce_mem_reg_handle_t lreg, ptrdiff_t ld, parsec_ce_mem_reg_handle_t rreg,
                     ptrdiff_t rd, size_t size, int remote, void *cb_data) {
     (void)e; (void)lreg; (void)ld; (void)rreg; (void)rd; (void)size;
-    L("c\n"); L("pl %ld %d\n", (long)(intptr_t)cb_data, remote); got_pl++; records++;
+    L("c\n"); L("pl %ld %d\n", (long)(intptr_t)cb_data, remote); got_pl++; records++; alarm(WATCHDOG);
     run_deferred_one();
     L("e\n");
     return 1;
@@ -276,7 +277,7 @@ static int put_r_cb(parsec_comm_engine_t *e, parsec_ce_tag_t tag, void *msg, siz
     L("c\n");
     int id = -1; memcpy(&id, msg, sizeof id);
     int ok = (id >= 0 && id < nxf && xf[id].target == me && xf[id].kind == 'p') ? check_xfer(id) : 0;
-    L("pr %d %d %ld %d\n", id, src, (long)msg_size, ok); got_pr++; records++;
+    L("pr %d %d %ld %d\n", id, src, (long)msg_size, ok); got_pr++; records++; alarm(WATCHDOG);
     run_deferred_one();
     L("e\n");
     return 1;
@@ -286,7 +287,7 @@ static int get_l_cb(parsec_comm_engine_t *e, parsec_ce_mem_reg_handle_t lreg, pt
     (void)e; (void)lreg; (void)ld; (void)rreg; (void)rd; (void)size;
     L("c\n");
     int id = (int)(intptr_t)cb_data;
-    L("gl %d %d %d\n", id, remote, check_xfer(id)); got_gl++; records++;
+    L("gl %d %d %d\n", id, remote, check_xfer(id)); got_gl++; records++; alarm(WATCHDOG);
     run_deferred_one();
     L("e\n");
     return 1;
@@ -296,7 +297,7 @@ static int get_r_cb(parsec_comm_engine_t *e, parsec_ce_tag_t tag, void *msg, siz
     L("c\n");
     int id = -1; memcpy(&id, msg, sizeof id);
     (void)src;   /* the status of a completed send carries no source: the engine passes an undefined value here */
-    L("gr %d\n", id); got_gr++; records++;
+    L("gr %d\n", id); got_gr++; records++; alarm(WATCHDOG);
     run_deferred_one();
     L("e\n");
     return 1;
@@ -375,7 +376,7 @@ int main(int argc, char **argv) {
     if (!l || !parse_case(l) || K != world) { flush_log("bad case"); MPI_Finalize(); return 0; }
     signal(SIGALRM, on_alarm);
     signal(SIGTERM, on_term);
-    alarm(150);
+    alarm(WATCHDOG);
 
     char b[64];
     snprintf(b, sizeof b, "%d", P); setenv("PARSEC_MCA_runtime_comm_mpi_am_posted_requests", b, 1);
@@ -387,6 +388,7 @@ int main(int argc, char **argv) {
     parsec_context_t *ctx = parsec_init(1, &pargc, &pargv);
     if (!ctx) { flush_log("parsec_init failed"); MPI_Abort(MPI_COMM_WORLD, 3); }
     ce = &parsec_ce;
+    alarm(WATCHDOG);
     /* user tags: every tag named by the case; registered before enable (the only place where
      * the request arrays are built) */
     int used[MAXTAGS] = { 0 };
@@ -423,6 +425,7 @@ int main(int argc, char **argv) {
     MPI_Allgather(&mine, 1, MPI_UINT64_T, rfn_get, 1, MPI_UINT64_T, MPI_COMM_WORLD);
     MPI_Barrier(MPI_COMM_WORLD);
     hide_pm = HIDE;
+    alarm(WATCHDOG);
 
     for (int i = 0; i < nops; i++) {
         op_t *o = &ops[i];
